@@ -9,7 +9,12 @@
 
 * a configurable finalizer name: the ops `fins` / `strip_own_finalizer` take `settings["persistence.finalizer"]`
   (if set) for the operator's own finalizer instead of kopf's default name;
-* daemon mode "linger": waits for the stop flag, then needs `after` seconds before it returns.
+* daemon mode "linger": waits for the stop flag, then needs `after` seconds before it returns;
+* timeline op `cut [410]`: the watch streams of the resource are closed at once — events not yet delivered (delayed echoes,
+  `echo_delay`) are LOST; with "410" the event log is compacted first, so that kopf re-lists (as harness/props/sim_c03.py);
+* two more observations per cycle record (module attributes of `processing`, as `observe` does): `fns_at_entry` = how many
+  transformation fns the cycle's patch holds when `process_resource_causes` is entered (the carried ones: what
+  `patch_initially_empty` reads), `spawning_delays` = what `process_spawning_cause` returned.
 
 Run as `python -m harness.props.sim_c06 <wall>`: the shared worker loop with these extensions patched in
 (module attributes only, in this subprocess only). `run_many` is the shared pool driving this module.
@@ -103,6 +108,16 @@ def _install() -> None:
     orig_apply_op = scenario.Sim.apply_op
 
     def apply_op(self: Any, op: list) -> None:
+        if op[0] == "cut":
+            # the watch streams of the resource are cut AT ONCE: events not yet delivered (delayed echoes) are lost; with
+            # "410" the event log is compacted first, so kopf re-lists instead of re-watching from its last seen version
+            if len(op) > 1 and op[1] == "410":
+                self.cluster.compact(self.kex)
+            for w in list(self.cluster.watches):
+                if not w.closed and w.res.key == self.kex.key:
+                    w.close()
+            self.mark("op", op=list(op))
+            return None
         own = (self.sc.get("settings") or {}).get("persistence.finalizer")
         if own is None or op[0] not in ("fins", "strip_own_finalizer"):
             return orig_apply_op(self, op)
@@ -160,6 +175,25 @@ def _install() -> None:
         daemon.__name__ = daemon.__qualname__ = h["id"]
         return daemon
 
+    from kopf._core.reactor import processing
+    orig_prc = processing.process_resource_causes
+    orig_psc = processing.process_spawning_cause
+
+    async def process_resource_causes(**kw: Any) -> Any:
+        rec = observe._cycle.get()
+        if rec is not None:
+            rec["fns_at_entry"] = len(kw["patch"].fns)
+        return await orig_prc(**kw)
+
+    async def process_spawning_cause(**kw: Any) -> Any:
+        out = await orig_psc(**kw)
+        rec = observe._cycle.get()
+        if rec is not None:
+            rec["spawning_delays"] = [float(d) for d in out]
+        return out
+
+    processing.process_resource_causes = process_resource_causes  # type: ignore[assignment]
+    processing.process_spawning_cause = process_spawning_cause  # type: ignore[assignment]
     observe.Observer._make_daemon = _make_daemon  # type: ignore[assignment]
     scenario.Sim.apply_op = apply_op  # type: ignore[assignment]
     scenario.Sim.__init__ = sim_init  # type: ignore[assignment]
